@@ -975,77 +975,149 @@ func checkAutoincShapes(c *Ctx, rule string) {
 		c.Unresolved(rule, "reAutoinc does not compile: "+err.Error())
 		return
 	}
-	info := w.Info()
-	f := newFlow(info, w.Decl.Body)
-	// tokens written by one CFG node, in evaluation order
-	tokensOf := func(n ast.Node) (toks []string, final bool) {
-		var calls []*ast.CallExpr
-		ast.Inspect(n, func(m ast.Node) bool {
-			if _, ok := m.(*ast.FuncLit); ok {
-				return false
-			}
-			if call, ok := m.(*ast.CallExpr); ok {
-				if fn := calleeOf(info, call); fn != nil && recvTypeName(fn) == "Builder" {
-					calls = append(calls, call)
-				}
-			}
-			return true
-		})
-		// ast.Inspect visits the outermost call of a chain first: reverse for evaluation order
-		for i := len(calls) - 1; i >= 0; i-- {
-			call := calls[i]
-			switch calleeOf(info, call).Name() {
-			case "Ident":
-				toks = append(toks, "`c`")
-			case "P":
-				for _, a := range call.Args {
-					if s, ok := stringConst(info, a); ok {
-						toks = append(toks, s)
-						if strings.Contains(strings.ToUpper(s), "AUTOINCREMENT") {
-							final = true
-						}
-						continue
-					}
-					// the formatted type of an AUTOINCREMENT column is integer; anything else is a value
-					if id, ok := ast.Unparen(a).(*ast.Ident); ok && id.Name == "t" {
-						toks = append(toks, "integer")
-					} else {
-						toks = append(toks, "1")
-					}
-				}
-			}
-		}
-		return toks, final
+	// alternatives of token sequences written along the CFG paths of fn (helpers that are handed
+	// the builder are expanded); final marks a sequence that ends with the AUTOINCREMENT write
+	type alt struct {
+		toks  []string
+		final bool
 	}
 	var shapes []string
 	seenShape := map[string]bool{}
-	var walk func(b *cfg.Block, toks []string, onPath map[*cfg.Block]bool)
-	walk = func(b *cfg.Block, toks []string, onPath map[*cfg.Block]bool) {
-		if onPath[b] || len(shapes) > 64 {
-			return
-		}
-		onPath[b] = true
-		defer delete(onPath, b)
-		for _, n := range b.Nodes {
-			t, final := tokensOf(n)
-			toks = append(toks, t...)
-			if final {
-				s := strings.Join(toks, " ")
-				if !seenShape[s] {
-					seenShape[s] = true
-					shapes = append(shapes, s)
+	var enumerate func(fi *FuncInfo, depth int) []alt
+	enumerate = func(fi *FuncInfo, depth int) []alt {
+		info := fi.Info()
+		fl := newFlow(info, fi.Decl.Body)
+		// tokens of one node: list of alternatives
+		nodeAlts := func(n ast.Node) []alt {
+			var calls []*ast.CallExpr
+			ast.Inspect(n, func(m ast.Node) bool {
+				if _, ok := m.(*ast.FuncLit); ok {
+					return false
 				}
+				if call, ok := m.(*ast.CallExpr); ok {
+					fn := calleeOf(info, call)
+					if fn == nil {
+						return true
+					}
+					if recvTypeName(fn) == "Builder" {
+						calls = append(calls, call)
+					} else if fn.Pkg() != nil && fn.Pkg().Path() == pSqlite && depth < 2 {
+						for _, a := range call.Args {
+							if nt := namedOf(derefType(info.TypeOf(a))); nt != nil && nt.Obj().Name() == "Builder" {
+								calls = append(calls, call)
+								break
+							}
+						}
+					}
+				}
+				return true
+			})
+			alts := []alt{{}}
+			// ast.Inspect visits the outermost call of a chain first: reverse for evaluation order
+			for i := len(calls) - 1; i >= 0; i-- {
+				call := calls[i]
+				fn := calleeOf(info, call)
+				var step []alt
+				switch {
+				case recvTypeName(fn) == "Builder" && fn.Name() == "Ident":
+					step = []alt{{toks: []string{"`c`"}}}
+				case recvTypeName(fn) == "Builder" && fn.Name() == "P":
+					var toks []string
+					final := false
+					for _, a := range call.Args {
+						if s, ok := stringConst(info, a); ok {
+							toks = append(toks, s)
+							if strings.Contains(strings.ToUpper(s), "AUTOINCREMENT") {
+								final = true
+							}
+							continue
+						}
+						// the formatted type of an AUTOINCREMENT column is integer; anything else is a value
+						if id, ok := ast.Unparen(a).(*ast.Ident); ok && id.Name == "t" {
+							toks = append(toks, "integer")
+						} else {
+							toks = append(toks, "1")
+						}
+					}
+					step = []alt{{toks: toks, final: final}}
+				case recvTypeName(fn) != "Builder":
+					if g := c.FuncInfoOf(fn); g != nil && g.Decl.Body != nil {
+						step = enumerate(g, depth+1)
+					}
+				}
+				if len(step) == 0 {
+					continue
+				}
+				var nextAlts []alt
+				for _, a := range alts {
+					if a.final {
+						nextAlts = append(nextAlts, a)
+						continue
+					}
+					for _, st := range step {
+						nextAlts = append(nextAlts, alt{toks: append(append([]string(nil), a.toks...), st.toks...), final: st.final})
+					}
+				}
+				alts = nextAlts
+				if len(alts) > 64 {
+					alts = alts[:64]
+				}
+			}
+			return alts
+		}
+		var out []alt
+		var walk func(b *cfg.Block, cur alt, onPath map[*cfg.Block]bool)
+		walk = func(b *cfg.Block, cur alt, onPath map[*cfg.Block]bool) {
+			if onPath[b] || len(out) > 128 {
 				return
 			}
-			if isReturn(n) {
+			onPath[b] = true
+			defer delete(onPath, b)
+			curs := []alt{cur}
+			for _, n := range b.Nodes {
+				var nextCurs []alt
+				for _, cu := range curs {
+					for _, a := range nodeAlts(n) {
+						na := alt{toks: append(append([]string(nil), cu.toks...), a.toks...), final: a.final}
+						if na.final {
+							out = append(out, na)
+						} else {
+							nextCurs = append(nextCurs, na)
+						}
+					}
+				}
+				curs = nextCurs
+				if len(curs) == 0 {
+					return
+				}
+				if isReturn(n) {
+					out = append(out, curs...)
+					return
+				}
+			}
+			if len(b.Succs) == 0 {
+				out = append(out, curs...)
 				return
+			}
+			for _, s := range b.Succs {
+				for _, cu := range curs {
+					walk(s, cu, onPath)
+				}
 			}
 		}
-		for _, s := range b.Succs {
-			walk(s, append([]string(nil), toks...), onPath)
+		walk(fl.G.Blocks[0], alt{}, map[*cfg.Block]bool{})
+		return out
+	}
+	for _, a := range enumerate(w, 0) {
+		if !a.final {
+			continue
+		}
+		s := strings.Join(a.toks, " ")
+		if !seenShape[s] {
+			seenShape[s] = true
+			shapes = append(shapes, s)
 		}
 	}
-	walk(f.G.Blocks[0], nil, map[*cfg.Block]bool{})
 	if len(shapes) < 2 {
 		c.Unresolved(rule, "clause shapes of (*state).column ending in AUTOINCREMENT (fewer than 2 paths found)")
 		return
@@ -1980,9 +2052,12 @@ func enclosingFacts(pm map[ast.Node]ast.Node, n ast.Node) []fact {
 				continue
 			}
 			inBody := true
-			for _, e := range x.List {
+			for k, e := range x.List {
 				if e.Pos() <= child.Pos() && child.End() <= e.End() {
 					inBody = false
+					for _, prev := range x.List[:k] {
+						out = append(out, impliedFacts(prev, false)...)
+					}
 				}
 			}
 			for _, cl := range sw.Body.List {
@@ -2102,22 +2177,48 @@ func checkFKReenabled(c *Ctx, rule string) {
 			continue
 		}
 		info := fi.Info()
+		// the function values it returns: literals, method values, named functions
+		type body struct {
+			info *types.Info
+			blk  *ast.BlockStmt
+			pos  token.Pos
+		}
+		var bodies []body
 		ast.Inspect(fi.Decl.Body, func(m ast.Node) bool {
-			lit, ok := m.(*ast.FuncLit)
-			if !ok {
-				return true
+			ret, ok := m.(*ast.ReturnStmt)
+			if !ok || len(ret.Results) == 0 {
+				_, isLit := m.(*ast.FuncLit)
+				return !isLit
 			}
-			n++
-			c.funcs[fi.Name] = true
-			f := newFlow(info, lit.Body)
-			isEnable := f.callNode(c.viaHelpers(func(fn *types.Func, _ *ast.CallExpr) bool { return fn.Name() == "enableFK" }, 1))
-			w, ok2 := f.mustPrecede(isEnable, isReturn)
-			c.Check(rule, "sqlite."+name+"|every exit re-enables foreign keys", nodePos(w, lit.Pos()), ok2, "the closure returned by sqlite.%s can return at %s without calling enableFK: foreign-key enforcement stays off for the rest of the connection, so later files of the same run are not checked", name, c.nodeAt(w))
+			switch r := ast.Unparen(ret.Results[0]).(type) {
+			case *ast.FuncLit:
+				bodies = append(bodies, body{info, r.Body, r.Pos()})
+			case *ast.SelectorExpr, *ast.Ident:
+				var obj types.Object
+				if se, ok := r.(*ast.SelectorExpr); ok {
+					obj = info.ObjectOf(se.Sel)
+				} else {
+					obj = info.ObjectOf(r.(*ast.Ident))
+				}
+				if fn, ok := obj.(*types.Func); ok {
+					if g := c.FuncInfoOf(fn); g != nil && g.Decl.Body != nil {
+						bodies = append(bodies, body{g.Info(), g.Decl.Body, g.Decl.Pos()})
+					}
+				}
+			}
 			return false
 		})
+		for _, b := range bodies {
+			n++
+			c.funcs[fi.Name] = true
+			f := newFlow(b.info, b.blk)
+			isEnable := f.callNode(c.viaHelpers(func(fn *types.Func, _ *ast.CallExpr) bool { return fn.Name() == "enableFK" }, 1))
+			w, ok2 := f.mustPrecede(isEnable, isReturn)
+			c.Check(rule, "sqlite."+name+"|every exit re-enables foreign keys", nodePos(w, b.pos), ok2, "the function returned by sqlite.%s can return at %s without calling enableFK: foreign-key enforcement stays off for the rest of the connection, so later files of the same run are not checked", name, c.nodeAt(w))
+		}
 	}
 	if n < 2 {
-		c.Unresolved(rule, "closures returned by sqlite CommitFunc / RollbackFunc (fewer than 2)")
+		c.Unresolved(rule, "functions returned by sqlite CommitFunc / RollbackFunc (fewer than 2)")
 	}
 }
 
@@ -2848,51 +2949,62 @@ func checkChangePerStmt(c *Ctx, rule string) {
 	if fi == nil {
 		return
 	}
+	st := findLintStep(c, fi)
+	if st == nil {
+		c.Unresolved(rule, "nextStmts: the loop that executes the statements")
+		return
+	}
 	info := fi.Info()
 	f := newFlow(info, fi.Decl.Body)
-	n := 0
-	ast.Inspect(fi.Decl.Body, func(m ast.Node) bool {
-		loop, ok := m.(*ast.RangeStmt)
-		if !ok {
-			return true
-		}
-		// the loop that executes statements
-		execs := false
-		for _, call := range callsIn(loop.Body, false) {
-			if fn := calleeOf(info, call); fn != nil && c.mayReach(fn, func(g *types.Func) bool { return g.Name() == "ExecContext" }, 2) {
-				execs = true
-			}
-		}
-		if !execs {
-			return true
-		}
-		n++
-		c.funcs[fi.Name] = true
-		isAppend := func(nd ast.Node) bool {
+	c.funcs[fi.Name] = true
+	isAppendIn := func(inf *types.Info) nodePred {
+		return func(nd ast.Node) bool {
 			as, ok := nd.(*ast.AssignStmt)
-			if !ok || len(as.Rhs) != 1 {
+			if !ok || len(as.Rhs) != 1 || len(as.Lhs) != 1 {
 				return false
 			}
 			call, ok := as.Rhs[0].(*ast.CallExpr)
-			if !ok || builtinName(info, call) != "append" || len(as.Lhs) != 1 {
-				return false
-			}
-			return isField(info, as.Lhs[0], pSqlcheck, "File", "Changes")
+			return ok && builtinName(inf, call) == "append" && isField(inf, as.Lhs[0], pSqlcheck, "File", "Changes")
 		}
-		var starts []point
-		for _, b := range f.G.Blocks {
-			if b.Live && b.Kind == cfg.KindRangeBody && b.Stmt == ast.Stmt(loop) {
-				starts = append(starts, point{b, 0})
-			}
-		}
-		next := func(b *cfg.Block) bool { return b.Kind == cfg.KindRangeLoop && b.Stmt == ast.Stmt(loop) }
-		skipped := f.reachBlockEdges(starts, isAppend, next, nil)
-		c.Check(rule, fi.Name+"|every executed statement gets its Change", loop.Pos(), !skipped, "%s can move on to the next statement without appending a Change for the current one: the positions the analyzers rely on (neighbouring statements of the SQLite table rebuild) no longer line up", fi.Name)
-		return true
-	})
-	if n == 0 {
-		c.Unresolved(rule, "nextStmts: the loop that executes the statements")
 	}
+	// in the loop: every iteration that goes on passes the append, or the helper call that appends on every successful return
+	through := isAppendIn(info)
+	if st.call != nil {
+		hinfo := st.scope.Info()
+		hf := newFlow(hinfo, st.scope.Decl.Body)
+		// helper: no successful (nil error) return without the append
+		skippedInHelper := false
+		for _, pt := range hf.find(isReturn) {
+			r := pt.b.Nodes[pt.i].(*ast.ReturnStmt)
+			if len(r.Results) == 0 || !isNilIdent(hinfo, r.Results[len(r.Results)-1]) {
+				continue // error return
+			}
+			target := func(nd ast.Node) bool { return nd == ast.Node(r) }
+			if _, reach := hf.reach([]point{hf.entry()}, isAppendIn(hinfo), target, false); reach {
+				skippedInHelper = true
+			}
+		}
+		c.Check(rule, fi.Name+"|the per-statement helper appends on every successful return", st.scope.Decl.Pos(), !skippedInHelper, "%s can return successfully without appending the statement's Change", st.scope.Name)
+		through = func(nd ast.Node) bool {
+			hit := false
+			ast.Inspect(nd, func(m ast.Node) bool {
+				if m == ast.Node(st.call) {
+					hit = true
+				}
+				return !hit
+			})
+			return hit
+		}
+	}
+	var starts []point
+	for _, b := range f.G.Blocks {
+		if b.Live && b.Kind == cfg.KindRangeBody && b.Stmt == ast.Stmt(st.loop) {
+			starts = append(starts, point{b, 0})
+		}
+	}
+	next := func(b *cfg.Block) bool { return b.Kind == cfg.KindRangeLoop && b.Stmt == ast.Stmt(st.loop) }
+	skipped := f.reachBlockEdges(starts, through, next, nil)
+	c.Check(rule, fi.Name+"|every executed statement gets its Change", st.loop.Pos(), !skipped, "%s can move on to the next statement without appending a Change for the current one: the positions the analyzers rely on (neighbouring statements of the SQLite table rebuild) no longer line up", fi.Name)
 }
 
 // R18j: a prefix is removed with TrimPrefix, not with a cutset.
@@ -3283,7 +3395,7 @@ func invokesFuncValue(c *Ctx, info *types.Info, n ast.Node, obj types.Object, de
 }
 
 // R12h: every slice indexed in the partial-hash comparison is bounded by its own length first.
-const ruleTextBothIndexesGuarded = "the history comparison cannot index out of range: in the condition that compares the recomputed checksum with the recorded one (it indexes both the checksum slice and Revision.PartialHashes with the loop variable), every indexed slice is preceded in the same short-circuit `||` chain by a bound test of that same index against len() of that same slice; a revision that holds fewer partial hashes than applied statements (written by an older version, or edited) is then refused with HistoryChangedError instead of crashing the executor"
+const ruleTextBothIndexesGuarded = "the history comparison cannot index out of range: in the condition that compares the recomputed checksum with the recorded one (it indexes both the checksum slice and Revision.PartialHashes with the loop variable), every indexed slice is used only where that same index is known to be below len() of that same slice (an earlier operand of the same short-circuit chain or case list, an enclosing condition, or the loop bound); a revision that holds fewer partial hashes than applied statements (written by an older version, or edited) is then refused with HistoryChangedError instead of crashing the executor"
 
 func checkBothIndexesGuarded(c *Ctx, rule string) {
 	n := 0
@@ -3292,22 +3404,38 @@ func checkBothIndexesGuarded(c *Ctx, rule string) {
 			return
 		}
 		info := fi.Info()
+		pm := parentMap(fi.Decl)
+		// conditions (if / case expressions) that index Revision.PartialHashes
+		seen := map[*ast.IndexExpr]bool{}
 		ast.Inspect(fi.Decl.Body, func(m ast.Node) bool {
-			var cond ast.Expr
-			switch x := m.(type) {
-			case *ast.IfStmt:
-				cond = x.Cond
-			default:
+			ix, ok := m.(*ast.IndexExpr)
+			if !ok || seen[ix] {
 				return true
 			}
-			// the condition indexes Revision.PartialHashes
-			var idxs []*ast.IndexExpr
+			if _, isSlice := info.TypeOf(ix.X).Underlying().(*types.Slice); !isSlice {
+				return true
+			}
+			// the comparison the index takes part in: the enclosing ==/!= whose other side indexes too
+			var cmp *ast.BinaryExpr
+			for p := pm[ix]; p != nil; p = pm[p] {
+				if be, ok := p.(*ast.BinaryExpr); ok && (be.Op == token.EQL || be.Op == token.NEQ) {
+					cmp = be
+					break
+				}
+				if _, ok := p.(ast.Stmt); ok {
+					break
+				}
+			}
+			if cmp == nil {
+				return true
+			}
 			ph := false
-			ast.Inspect(cond, func(k ast.Node) bool {
-				if ix, ok := k.(*ast.IndexExpr); ok {
-					if _, isSlice := info.TypeOf(ix.X).Underlying().(*types.Slice); isSlice {
-						idxs = append(idxs, ix)
-						if isField(info, ix.X, pMigrate, "Revision", "PartialHashes") {
+			var idxs []*ast.IndexExpr
+			ast.Inspect(cmp, func(k ast.Node) bool {
+				if x, ok := k.(*ast.IndexExpr); ok {
+					if _, isSlice := info.TypeOf(x.X).Underlying().(*types.Slice); isSlice {
+						idxs = append(idxs, x)
+						if isField(info, x.X, pMigrate, "Revision", "PartialHashes") {
 							ph = true
 						}
 					}
@@ -3317,73 +3445,72 @@ func checkBothIndexesGuarded(c *Ctx, rule string) {
 			if !ph {
 				return true
 			}
-			// disjuncts in evaluation order
-			var disj func(e ast.Expr) []ast.Expr
-			disj = func(e ast.Expr) []ast.Expr {
-				if be, ok := ast.Unparen(e).(*ast.BinaryExpr); ok && be.Op == token.LOR {
-					return append(disj(be.X), disj(be.Y)...)
+			for _, x := range idxs {
+				if seen[x] {
+					continue
 				}
-				return []ast.Expr{ast.Unparen(e)}
-			}
-			ds := disj(cond)
-			for _, ix := range idxs {
+				seen[x] = true
 				n++
 				c.funcs[fi.Name] = true
 				guarded := false
-				for _, d := range ds {
-					if d.Pos() <= ix.Pos() && ix.End() <= d.End() {
-						break // the disjunct that contains the index: guards must come before it
-					}
-					be, ok := d.(*ast.BinaryExpr)
+				bounded := func(e ast.Expr, val bool) bool {
+					be, ok := ast.Unparen(e).(*ast.BinaryExpr)
 					if !ok {
-						continue
+						return false
 					}
-					// i >= len(a)  |  len(a) <= i  |  i > len(a)-1 …
-					var lenSide, idxSide ast.Expr
-					switch be.Op {
-					case token.GEQ:
-						idxSide, lenSide = be.X, be.Y
-					case token.LEQ:
-						idxSide, lenSide = be.Y, be.X
-					default:
-						continue
+					// normalise to  idx OP len(a)
+					l, r, op := be.X, be.Y, be.Op
+					if lenArg(info, l) != nil {
+						l, r = r, l
+						switch op {
+						case token.LSS:
+							op = token.GTR
+						case token.GTR:
+							op = token.LSS
+						case token.LEQ:
+							op = token.GEQ
+						case token.GEQ:
+							op = token.LEQ
+						}
 					}
-					if a := lenArg(info, lenSide); a != nil && types.ExprString(a) == types.ExprString(ix.X) && types.ExprString(ast.Unparen(idxSide)) == types.ExprString(ast.Unparen(ix.Index)) {
+					a := lenArg(info, r)
+					if a == nil || types.ExprString(a) != types.ExprString(x.X) || types.ExprString(ast.Unparen(l)) != types.ExprString(ast.Unparen(x.Index)) {
+						return false
+					}
+					return (op == token.LSS && val) || (op == token.GEQ && !val)
+				}
+				for _, f := range enclosingFacts(pm, x) {
+					if bounded(f.expr, f.val) {
 						guarded = true
 					}
 				}
 				// or bounded by the enclosing loop: `for i := range min(…, len(a), …)` / `for …; i < len(a) && …; …`
-				if !guarded {
-					pmF := parentMap(fi.Decl)
-					for p := pmF[ix]; p != nil && !guarded; p = pmF[p] {
-						switch lp := p.(type) {
-						case *ast.RangeStmt:
-							if key, ok := lp.Key.(*ast.Ident); ok && types.ExprString(key) == types.ExprString(ast.Unparen(ix.Index)) {
-								if call, ok := ast.Unparen(lp.X).(*ast.CallExpr); ok && builtinName(info, call) == "min" {
-									for _, a := range call.Args {
-										if la := lenArg(info, a); la != nil && types.ExprString(la) == types.ExprString(ix.X) {
-											guarded = true
-										}
+				for p := pm[x]; p != nil && !guarded; p = pm[p] {
+					switch lp := p.(type) {
+					case *ast.RangeStmt:
+						if key, ok := lp.Key.(*ast.Ident); ok && types.ExprString(key) == types.ExprString(ast.Unparen(x.Index)) {
+							if call, ok := ast.Unparen(lp.X).(*ast.CallExpr); ok && builtinName(info, call) == "min" {
+								for _, a := range call.Args {
+									if la := lenArg(info, a); la != nil && types.ExprString(la) == types.ExprString(x.X) {
+										guarded = true
 									}
-								}
-								if la := lenArg(info, lp.X); la != nil && types.ExprString(la) == types.ExprString(ix.X) {
-									guarded = true
 								}
 							}
-						case *ast.ForStmt:
-							if lp.Cond != nil {
-								for _, f := range impliedFacts(lp.Cond, true) {
-									if be, ok := ast.Unparen(f.expr).(*ast.BinaryExpr); ok && f.val && be.Op == token.LSS && types.ExprString(ast.Unparen(be.X)) == types.ExprString(ast.Unparen(ix.Index)) {
-										if la := lenArg(info, be.Y); la != nil && types.ExprString(la) == types.ExprString(ix.X) {
-											guarded = true
-										}
-									}
+							if la := lenArg(info, lp.X); la != nil && types.ExprString(la) == types.ExprString(x.X) {
+								guarded = true
+							}
+						}
+					case *ast.ForStmt:
+						if lp.Cond != nil {
+							for _, f := range impliedFacts(lp.Cond, true) {
+								if bounded(f.expr, f.val) {
+									guarded = true
 								}
 							}
 						}
 					}
 				}
-				c.Check(rule, fi.Name+"|"+types.ExprString(ix)+" bounded by len before use", ix.Pos(), guarded, "%s indexes %s in the history comparison without first testing %s >= len(%s) in the same condition: a revision with fewer recorded hashes than applied statements makes the executor panic instead of refusing the file", fi.Name, types.ExprString(ix), types.ExprString(ix.Index), types.ExprString(ix.X))
+				c.Check(rule, fi.Name+"|"+types.ExprString(x)+" bounded by len before use", x.Pos(), guarded, "%s indexes %s in the history comparison without first establishing %s < len(%s) (an earlier operand of the same && / || chain or case list, an enclosing condition, or the loop bound): a revision with fewer recorded hashes than applied statements makes the executor panic instead of refusing the file", fi.Name, types.ExprString(x), types.ExprString(x.Index), types.ExprString(x.X))
 			}
 			return true
 		})
@@ -3767,4 +3894,216 @@ func checkPrefixUnconditional(c *Ctx, rule string) {
 	if n < 3 {
 		c.Unresolved(rule, "calls of schemaPrefix / typeIdent in the PostgreSQL planner (fewer than 3)")
 	}
+}
+
+// lintStep describes where the per-statement work of DevLoader.nextStmts lives: in the loop
+// itself, or in a DevLoader helper method the loop calls once per statement.
+type lintStep struct {
+	caller  *FuncInfo
+	loop    *ast.RangeStmt
+	scope   *FuncInfo     // function holding inspect / RealmDiff / append (caller or helper)
+	call    *ast.CallExpr // the helper call in the loop (nil when scope == caller)
+	stmtObj types.Object  // the statement variable inside scope
+	prevObj types.Object  // the "state before" variable inside scope
+	curObj  types.Object  // the threaded state variable of the caller
+}
+
+func findLintStep(c *Ctx, fi *FuncInfo) *lintStep {
+	info := fi.Info()
+	var st *lintStep
+	ast.Inspect(fi.Decl.Body, func(m ast.Node) bool {
+		loop, ok := m.(*ast.RangeStmt)
+		if !ok || st != nil {
+			return st == nil
+		}
+		execs := false
+		for _, call := range callsIn(loop.Body, false) {
+			if fn := calleeOf(info, call); fn != nil && c.mayReach(fn, func(g *types.Func) bool { return g.Name() == "ExecContext" }, 2) {
+				execs = true
+			}
+		}
+		if !execs {
+			return true
+		}
+		st = &lintStep{caller: fi, loop: loop, scope: fi}
+		if sv, ok := loop.Value.(*ast.Ident); ok {
+			st.stmtObj = info.ObjectOf(sv)
+		}
+		// a helper that performs the inspection
+		for _, call := range callsIn(loop.Body, false) {
+			fn := calleeOf(info, call)
+			if fn == nil || funcIs(fn, pLint, "DevLoader", "inspect") {
+				continue
+			}
+			g := c.FuncInfoOf(fn)
+			if g == nil || g.Decl.Body == nil || g.Pkg != fi.Pkg || g == fi {
+				continue
+			}
+			has := false
+			for _, ic := range callsIn(g.Decl.Body, false) {
+				if funcIs(calleeOf(g.Info(), ic), pLint, "DevLoader", "inspect") {
+					has = true
+				}
+			}
+			if !has {
+				continue
+			}
+			st.scope, st.call = g, call
+			// bind parameters
+			var ps []*ast.Ident
+			for _, fld := range g.Decl.Type.Params.List {
+				ps = append(ps, fld.Names...)
+			}
+			st.stmtObj, st.prevObj = nil, nil
+			for ai, a := range call.Args {
+				if ai >= len(ps) {
+					break
+				}
+				id, ok := ast.Unparen(a).(*ast.Ident)
+				if !ok {
+					continue
+				}
+				switch {
+				case loop.Value != nil && info.ObjectOf(id) == info.ObjectOf(loop.Value.(*ast.Ident)):
+					st.stmtObj = g.Info().ObjectOf(ps[ai])
+				case typeIs(derefType(info.TypeOf(id)), pSchema, "Realm"):
+					st.prevObj = g.Info().ObjectOf(ps[ai])
+					st.curObj = info.ObjectOf(id)
+				}
+			}
+		}
+		return false
+	})
+	return st
+}
+
+func checkPerStatementStep(c *Ctx, fi *FuncInfo) {
+	st := findLintStep(c, fi)
+	if st == nil {
+		c.Unresolved("R18d", "nextStmts: the loop that executes the statements")
+		return
+	}
+	info := fi.Info()
+	f := newFlow(info, fi.Decl.Body)
+	sinfo := st.scope.Info()
+	sf := f
+	if st.scope != fi {
+		sf = newFlow(sinfo, st.scope.Decl.Body)
+	}
+	isExec := func(n ast.Node) bool { return nodeHasCall(info, n, c.viaHelpers(dbExec, 2)) != nil }
+	isStepStart := func(n ast.Node) bool {
+		if st.call != nil {
+			hit := false
+			ast.Inspect(n, func(m ast.Node) bool {
+				if m == ast.Node(st.call) {
+					hit = true
+				}
+				return !hit
+			})
+			return hit
+		}
+		return nodeHasCall(info, n, isCallTo(pLint, "DevLoader", "inspect")) != nil
+	}
+	isInspect := sf.callNode(isCallTo(pLint, "DevLoader", "inspect"))
+	isDiff := func(n ast.Node) bool {
+		if nodeHasCall(sinfo, n, func(fn *types.Func, _ *ast.CallExpr) bool { return fn.Name() == "RealmDiff" }) == nil {
+			return false
+		}
+		if st.scope != fi {
+			return true
+		}
+		return enclosingLoopOf(fi, n) != nil // not the final Sum diff
+	}
+	isAppend := func(n ast.Node) bool {
+		as, ok := n.(*ast.AssignStmt)
+		return ok && len(as.Lhs) == 1 && isField(sinfo, as.Lhs[0], pSqlcheck, "File", "Changes")
+	}
+	n0, ok0 := f.mustPrecede(isExec, isStepStart)
+	c.Check("R18d", "nextStmts|ExecContext ≺ inspect", nodePos(n0, fi.Decl.Pos()), ok0 && len(f.find(isStepStart)) > 0, "inspect can happen before ExecContext in the per-statement loop")
+	n1, ok1 := sf.mustPrecede(isInspect, isDiff)
+	c.Check("R18d", "nextStmts|inspect ≺ RealmDiff", nodePos(n1, st.scope.Decl.Pos()), ok1 && len(sf.find(isDiff)) > 0, "RealmDiff can happen before inspect in the per-statement loop")
+	n2, ok2 := sf.mustPrecede(isDiff, isAppend)
+	c.Check("R18d", "nextStmts|RealmDiff ≺ append Change", nodePos(n2, st.scope.Decl.Pos()), ok2 && len(sf.find(isAppend)) > 0, "append Change can happen before RealmDiff in the per-statement loop")
+
+	// the Change carries this statement; the diff is between the state before and the inspected state; the state advances
+	stmtOK, diffOK, advOK := false, false, false
+	var nextObj, curObj types.Object
+	root := ast.Node(st.loop.Body)
+	if st.scope != fi {
+		root = st.scope.Decl.Body
+	}
+	ast.Inspect(root, func(k ast.Node) bool {
+		switch x := k.(type) {
+		case *ast.KeyValueExpr:
+			if id, ok := x.Key.(*ast.Ident); ok && id.Name == "Stmt" {
+				if v, ok := x.Value.(*ast.Ident); ok && st.stmtObj != nil && sinfo.ObjectOf(v) == st.stmtObj {
+					stmtOK = true
+				}
+			}
+		case *ast.AssignStmt:
+			if len(x.Rhs) != 1 {
+				return true
+			}
+			if call, ok := x.Rhs[0].(*ast.CallExpr); ok {
+				if fn := calleeOf(sinfo, call); fn != nil {
+					if funcIs(fn, pLint, "DevLoader", "inspect") {
+						if id, ok := x.Lhs[0].(*ast.Ident); ok {
+							nextObj = sinfo.ObjectOf(id)
+						}
+					}
+					if fn.Name() == "RealmDiff" && len(call.Args) == 2 {
+						a, oka := call.Args[0].(*ast.Ident)
+						b, okb := call.Args[1].(*ast.Ident)
+						if oka && okb && nextObj != nil && sinfo.ObjectOf(b) == nextObj && sinfo.ObjectOf(a) != nextObj {
+							if st.scope == fi || sinfo.ObjectOf(a) == st.prevObj {
+								diffOK = true
+								curObj = sinfo.ObjectOf(a)
+							}
+						}
+					}
+				}
+			}
+			if l, ok := x.Lhs[0].(*ast.Ident); ok && st.scope == fi && curObj != nil && sinfo.ObjectOf(l) == curObj {
+				if r, ok := x.Rhs[0].(*ast.Ident); ok && sinfo.ObjectOf(r) == nextObj {
+					advOK = true
+				}
+			}
+		}
+		return true
+	})
+	if st.scope != fi {
+		// the helper returns the inspected state on success and the caller stores it into the state it passed in
+		retOK := true
+		nret := 0
+		ast.Inspect(st.scope.Decl.Body, func(k ast.Node) bool {
+			if _, ok := k.(*ast.FuncLit); ok {
+				return false
+			}
+			r, ok := k.(*ast.ReturnStmt)
+			if !ok || len(r.Results) < 1 || isNilIdent(sinfo, r.Results[0]) {
+				return true
+			}
+			nret++
+			if id, ok := ast.Unparen(r.Results[0]).(*ast.Ident); !ok || sinfo.ObjectOf(id) != nextObj {
+				retOK = false
+			}
+			return true
+		})
+		stored := false
+		pm := parentMap(fi.Decl)
+		for p := pm[st.call]; p != nil; p = pm[p] {
+			if as, ok := p.(*ast.AssignStmt); ok {
+				if l, ok := as.Lhs[0].(*ast.Ident); ok && st.curObj != nil && info.ObjectOf(l) == st.curObj {
+					stored = true
+				}
+				break
+			}
+			if _, ok := p.(*ast.BlockStmt); ok {
+				break
+			}
+		}
+		advOK = retOK && nret > 0 && stored
+	}
+	c.Check("R18d", "nextStmts|change carries its own statement", fi.Decl.Pos(), stmtOK, "the Change recorded for a statement must carry that statement (Stmt: s): diagnostics are positioned through it")
+	c.Check("R18d", "nextStmts|diff(state before, state after) and state advanced", fi.Decl.Pos(), diffOK && advOK, "each statement's changes must be RealmDiff(current, next) followed by current = next (diff=%v advance=%v)", diffOK, advOK)
 }
